@@ -331,6 +331,12 @@ package css
 //@   ensures[S]  tokOK(result0, result1, p) && len(result1) <= p.l.r.pos - old(p.l.r.pos) && (result0 != ErrorToken ==> p.l.r.pos > old(p.l.r.pos)) && (result0 == RightBraceToken ==> p.l.r.pos >= 1) && (result0 == CommentToken ==> allowComment && len(p.state) == 1)
 //@   loop 1 invariant tokOK(tt, data, p) && len(data) <= p.l.r.pos - old(p.l.r.pos) && (tt != ErrorToken ==> p.l.r.pos > old(p.l.r.pos))
 //@   loop 1 decreases ite((!p.keepWS && tt == WhitespaceToken) || tt == CommentToken, len(p.l.r.buf) - p.l.r.pos + 1, 0)
+// what was skipped is recorded and stays recorded until the token is returned (Values() keeps one whitespace token
+// wherever whitespace, with or without comments around it, separated two tokens)
+//@   loop 1 transition[F,C08] @ws-recorded: prev(tt) == WhitespaceToken ==> p.prevWS
+//@   loop 1 transition[F,C08] @ws-sticky: prev(p.prevWS) ==> p.prevWS
+//@   loop 1 transition[F,C08] @comment-recorded: prev(tt) == CommentToken ==> p.prevComment
+//@   loop 1 transition[F,C08] @comment-sticky: prev(p.prevComment) ==> p.prevComment
 
 //@ func Parser.parseStylesheet
 //@   preserves[S] cpInv(p) && p.l.r.pos >= old(p.l.r.pos)
